@@ -136,7 +136,7 @@ def examine(wd, logdir):
             meta = json.load(open(jp))
             finished = meta.get("ovni", {}).get("finished") == 1
             tid = meta.get("ovni", {}).get("tid")
-        except ValueError:
+        except (ValueError, AttributeError):
             meta, finished, tid = None, False, None
         evs = decoded_prefix(os.path.join(sd, "stream.obs"))
         if tid is None:
